@@ -45,6 +45,14 @@ EVENTS = {
     'x1/y0': (['unit', 'V', None, ['derive', ['x1', 'y0']]], ['V', 'x1'],
               'valid'),
     'x1²': (['unit', 'S', 'x1²', ['derive', ['x1']]], ['S', 'x1'], 'valid'),
+    # a symbol that differs from 'x1' only by a blank at its end: text is
+    # resolved by the symbol as written first, whatever was parsed before
+    'x1pad': (['unit', 'B1', 'x1 ', ['scaled', 'i:7', 'x0']], ['B1'],
+              'valid'),
+    # a unit that owns the symbol which derive_unit_from(x1, y0) generates,
+    # with another meaning: whichever of the two comes second is a duplicate
+    'vusurp': (['unit', 'V', 'x1/y0', ['scaled', 'i:2', 'x0/y0']], ['V'],
+               'valid'),
     'vt': (['unit', 'V', 'vt', ['term', [['F:1/3', 1], ['x1', 1],
                                          ['y0', -1]]]], ['V', 'x1'], 'valid'),
     # a term that is exactly the definition of 'x1/y1' (an alias when that
